@@ -22,4 +22,18 @@ Utf8From(s, i) ==
             ELSE FALSE
 
 Utf8Valid(s) == Utf8From(s, 1)
+\* ---- UTF-16 (the other Unicode transfer form the charset registry knows): when is a byte string NOT decodable
+Utf16Labels == {<<117, 116, 102, 45, 49, 54>>, <<117, 116, 102, 45, 49, 54, 108, 101>>, <<117, 116, 102, 45, 49, 54, 98, 101>>}
+ReplacementLabels == { <<99, 115, 105, 115, 111, 50, 48, 50, 50, 107, 114>>,            \* csiso2022kr
+                       <<104, 122, 45, 103, 98, 45, 50, 51, 49, 50>>,                    \* hz-gb-2312
+                       <<105, 115, 111, 45, 50, 48, 50, 50, 45, 107, 114>>,              \* iso-2022-kr
+                       <<105, 115, 111, 45, 50, 48, 50, 50, 45, 99, 110>>,               \* iso-2022-cn
+                       <<105, 115, 111, 45, 50, 48, 50, 50, 45, 99, 110, 45, 101, 120, 116>> }   \* iso-2022-cn-ext
+Unit16(b, i, be) == IF be THEN b[i] * 256 + b[i + 1] ELSE b[i + 1] * 256 + b[i]
+Utf16Undecodable(b, be) ==
+    \/ Len(b) % 2 = 1
+    \/ \E k \in 1..(Len(b) \div 2) :
+          LET u == Unit16(b, 2 * k - 1, be) IN
+          \/ (u \in 56320..57343 /\ (k = 1 \/ Unit16(b, 2 * k - 3, be) \notin 55296..56319))                  \* lone low surrogate
+          \/ (u \in 55296..56319 /\ (k = Len(b) \div 2 \/ Unit16(b, 2 * k + 1, be) \notin 56320..57343))     \* lone high surrogate
 =============================================================================
